@@ -46,11 +46,7 @@ Theorem C14_layout_fits : forall n dw al, 0 < dw -> 0 <= n -> 0 <= al ->
   MemSpec.least_multiple_ge (2 ^ al) (Z.max (reg_size n dw) 1) (span n dw al) /\
   2 * span n dw al <= 2 ^ addr_width n dw al /\
   n <= span n dw al * dw.
-Proof.
-  intros n dw al Hd Hn Ha. destruct (span_spec n dw al Hd Hn Ha) as (H1 & H2 & H3 & H4 & H5).
-  pose proof (reg_size_holds n dw Hd Hn).
-  repeat split; auto using build_map_ok, all_resources_final, resources_final; try apply H5; nia.
-Qed.
+Proof. exact layout_fits. Qed.
 Print Assumptions C14_layout_fits.
 
 (* The constructor accepts exactly the valid argument combinations; everything else is a ValueError. *)
